@@ -1068,6 +1068,33 @@ static void sec_triples(vf::Ctx& c) {
     run_and_judge(c, pp);
 }
 
+// Failure totals on and around multiples of 256 (the width of a process exit status): N failing tests x R
+// repetitions x 1..2 failing phases per test. "Zero iff every repetition OK" must not depend on the total.
+struct TotCombo { int tests, reps, phases; };
+static const TotCombo TOT[] = { { 255, 1, 1 }, { 256, 1, 1 }, { 257, 1, 1 }, { 128, 2, 1 }, { 64, 4, 1 }, { 128, 1, 2 }, { 64, 2, 2 }, { 32, 4, 2 }, { 85, 3, 1 }, { 86, 3, 1 }, { 127, 2, 1 }, { 129, 2, 1 } };
+static const int TOT_N = (int) (sizeof TOT / sizeof TOT[0]);
+static void sec_totals(vf::Ctx& c) {
+    uint64_t i = c.idx;
+    TotCombo tc = TOT[i % TOT_N]; i /= TOT_N;
+    int mode = 1 + (int) (i % 2); i /= 2;
+    int kind = (i % 2) ? K_FAILC : K_FAILCPP;
+    auto pp = std::make_shared<Program>();
+    Program& p = *pp; p.mode = mode; p.reps = tc.reps; p.shape = "failure_total_" + std::to_string(tc.tests * tc.reps * tc.phases);
+    GenState g; g.reps = tc.reps;
+    for (int t = 0; t < tc.tests; t++) {
+        TestSpec ts; ts.group = "Tot"; ts.name = "t" + std::to_string(t); ts.file = "tests_tot.cpp"; ts.line = 1000 + 10 * t;
+        int seq = 0;
+        for (int ph = 1; ph <= tc.phases; ph++) {     // body, and teardown when two phases fail
+            Stmt s; s.id = g.next_id++; s.kind = kind; s.variant = (t + ph) % (kind == K_FAILCPP ? N_CPP : N_C);
+            s.file = ts.file; s.line = ts.line + 1 + seq++; s.text = "tok" + std::to_string(s.id) + "q"; s.deep = t % 2;
+            ts.ph[ph].push_back(s);
+        }
+        p.tests.push_back(ts);
+    }
+    finish_program(c.rng, p, g);
+    run_and_judge(c, pp);
+}
+
 int main(int argc, char** argv) {
     g_obs = (Obs*) mmap(nullptr, sizeof(Obs), PROT_READ | PROT_WRITE, MAP_SHARED | MAP_ANONYMOUS, -1, 0);
     if (g_obs == MAP_FAILED) { perror("mmap"); return 2; }
@@ -1076,6 +1103,7 @@ int main(int argc, char** argv) {
     uint64_t ntri = (uint64_t) TRI_N * TRI_N * TRI_N * 2;
     std::vector<vf::Section> S = {
         { "outcome_triples", ntri, ntri, sec_triples, true },
+        { "failure_totals_around_256", (uint64_t) TOT_N * 4, (uint64_t) TOT_N * 4, sec_totals, true },
         { "registry_programs", 3000, 40000, sec_registry, false },
         { "runner_programs", 2000, 25000, sec_runner, false },
         { "process_programs", 200, 1200, sec_process, false },
